@@ -45,7 +45,8 @@ def many_network(draw, hazards=()):
     work = [draw(st.integers(0, 2)) for _ in range(ns + nr)]
     nested = draw(st.integers(0, 3)) == 0  # launches happen inside a starter fiber
     as_arg = draw(st.booleans())  # the data channel is passed as an argument instead of captured
-    return {"mode": "M", "ns": ns, "nr": nr, "cap": cap, "counts": counts, "order": [list(o) for o in order],
+    boxed = draw(st.integers(0, 2)) == 0  # values travel boxed in fresh lists (heap objects)
+    return {"mode": "M", "boxed": boxed, "ns": ns, "nr": nr, "cap": cap, "counts": counts, "order": [list(o) for o in order],
             "closer": closer, "work": work, "nested": nested, "as_arg": as_arg}
 
 
@@ -66,7 +67,8 @@ def build_program(net):
     sbody = [("let", "i", N(0)),
              ("while", ("bin", "<", V("i"), V("k")), [
                  ("expr", ("assign", V("i"), ("bin", "+", V("i"), N(1)))),
-                 ("expr", ("send", data, ("bin", "+", ("bin", "*", V("id"), N(1000)), V("i")))),
+                 ("expr", ("send", data, ("list", [("bin", "+", ("bin", "*", V("id"), N(1000)), V("i"))]) if net.get("boxed")
+                           else ("bin", "+", ("bin", "*", V("id"), N(1000)), V("i")))),
                  work]),
              ("expr", ("assign", V("finished"), ("bin", "+", V("finished"), N(1))))]
     if net["closer"] == "last-sender":
@@ -77,7 +79,7 @@ def build_program(net):
              ("while", ("true",), [
                  ("let", "v", ("recv", data)),
                  ("if", ("bin", "==", V("v"), ("nil",)), [("break",)], None),
-                 ("expr", ("call", ("prop", V("log"), "push"), [V("v")])),
+                 ("expr", ("call", ("prop", V("log"), "push"), [("index", V("v"), N(0)) if net.get("boxed") else V("v")])),
                  ("if", ("bin", ">", ("call", ("prop", data, "len"), []), ("call", ("prop", data, "capacity"), [])),
                   [("print", S_("CAPACITY EXCEEDED"))], None),
                  work]),
